@@ -84,6 +84,11 @@ fn angle(rng: &mut Rng) -> i64 {
     if [3500i64, 4500, 6000, -4500, -4000].contains(&a) { a + 50 } else { a }
 }
 
+/// a roll reading: one in four beyond the quarter turn (machine on its side / back), either direction
+fn roll_angle(rng: &mut Rng) -> i64 {
+    if rng.chance(1, 4) { let a = 9050 + rng.below(177) as i64 * 50; if rng.chance(2, 3) { a } else { -a } } else { angle(rng) }
+}
+
 pub fn gen(o: &Opts, sink: &mut dyn FnMut(Vec<i64>, String)) {
     let mut k: u64 = 0;
     macro_rules! put { ($c:expr) => {{ k += 1; if mine(o, k) { sink($c, String::new()); } }}; }
@@ -100,7 +105,7 @@ pub fn gen(o: &Opts, sink: &mut dyn FnMut(Vec<i64>, String)) {
                 match rng.below(7) {
                     0 | 1 => c.extend([1, *rng.pick(&[800i64, 1500, 2199, 2201, 2500, 3000, 0, 65535])]),
                     2 => c.extend([1, rng.below(4000) as i64]),
-                    3 | 4 => { let (r, p) = if rng.chance(1, 2) { (angle(&mut rng), 0) } else { (angle(&mut rng), angle(&mut rng)) }; c.extend([2, *rng.pick(&[0x7ai64, 0x6a, 0x6b]), r, p, 1]); }
+                    3 | 4 => { let (r, p) = if rng.chance(1, 2) { (roll_angle(&mut rng), 0) } else { (roll_angle(&mut rng), angle(&mut rng)) }; c.extend([2, *rng.pick(&[0x7ai64, 0x6a, 0x6b]), r, p, 1]); }
                     5 => c.extend([2, 0x7a, 0, 0, 1]),
                     _ => c.extend([3, rng.below(5) as i64]),
                 }
@@ -120,7 +125,7 @@ pub fn gen(o: &Opts, sink: &mut dyn FnMut(Vec<i64>, String)) {
             let sig = |rng: &mut Rng, c: &mut Vec<i64>| match rng.below(6) {
                 0 | 1 => c.extend([1, *rng.pick(&[800i64, 1500, 2201, 2500, 3000])]),
                 2 => c.extend([1, rng.below(4000) as i64]),
-                3 => { let a = angle(rng); c.extend([2, 0x7a, a, 0, 1]); }
+                3 => { let a = roll_angle(rng); c.extend([2, 0x7a, a, 0, 1]); }
                 4 => c.extend([2, *rng.pick(&[0x6ai64, 0x6b]), angle(rng), 0, 1]),
                 _ => c.extend([3, rng.below(5) as i64]),
             };
@@ -143,7 +148,8 @@ pub fn gen(o: &Opts, sink: &mut dyn FnMut(Vec<i64>, String)) {
     let mut rng = Rng::new(o.seed, 9);
     for src in [0x6ai64, 0x6b, 0x6c, 0x6d, 0x7a, 0x00, 0xff] {
         let g = if o.tier_thorough { 1 } else { 4 };
-        for r in (-177..=177i64).step_by(g) { for p in (-177..=177i64).step_by(if o.tier_thorough { 3 } else { 12 }) {
+        // roll over the whole circle (a machine on its side or on its back still reads "more than 45 degrees"), pitch inside the quarter turn
+        for r in (-357..=357i64).step_by(g) { for p in (-177..=177i64).step_by(if o.tier_thorough { 3 } else { 12 }) {
             let (mut rr, mut pp) = (r * 50, p * 50);
             for t in [3500i64, 4500, 6000, -4500, -4000] { if rr == t { rr += 50; } if pp == t { pp += 50; } }
             put!(vec![2, src, rr, pp, if (r + p) % 7 == 0 { 0 } else { 1 }, 3, rng.below(5) as i64]);
@@ -152,8 +158,8 @@ pub fn gen(o: &Opts, sink: &mut dyn FnMut(Vec<i64>, String)) {
     // all histories of length <= 3 over 12 classes; random histories up to length 100
     let class = |l: u64, rng: &mut Rng| -> Vec<i64> { match l {
         0 => vec![1, 500], 1 => vec![1, 1500], 2 => vec![1, 2201 + rng.below(3000) as i64],
-        3 => vec![2, 0x7a, 4600 + rng.below(40) as i64 * 100, angle(rng).min(8800), 1], 4 => vec![2, 0x7a, angle(rng).min(4400), angle(rng).min(4400), 1],
-        5 => vec![2, 0x7a, angle(rng), 5000, 1], 6 => vec![2, 0x6b, 0, 7000, 1], 7 => vec![2, 0x6c, 0, angle(rng), 1],
+        3 => vec![2, 0x7a, 4600 + rng.below(130) as i64 * 100, angle(rng).min(8800), 1], 4 => vec![2, 0x7a, angle(rng).min(4400), angle(rng).min(4400), 1],
+        5 => vec![2, 0x7a, roll_angle(rng), 5000, 1], 6 => vec![2, 0x6b, 0, 7000, 1], 7 => vec![2, 0x6c, 0, angle(rng), 1],
         8 => vec![2, rng.below(256) as i64, 6000 + rng.below(20) as i64 * 100, 0, 1], 9 => vec![2, 0x7a, 6000, 6000, 0],
         10 => vec![3, rng.below(5) as i64], _ => vec![2, 0x6a, 0, 0, 1] } };
     let depth = 3;
